@@ -71,11 +71,15 @@ func init() {
 			if v != v {
 				return &sym{st.Var(smt.BV(64), "nanhash")}
 			}
-			return i.fromTerm(st.UF("hash_Float64", smt.BV(64), st.Const(smt.BV(64), f.Val), seed), types.Uintptr)
+			return i.fromTerm(st.UF("hash_Float64", smt.BV(64), f, seed), types.Uintptr)
 		}
-		bitsv := i.floatBits(f)
+		// the uninterpreted function ranges over the float value itself (an FP-sorted argument:
+		// no bit pattern needs to be recovered); -0 is canonicalised to +0
+		if f.Op == "i2f.s" || f.Op == "i2f.u" {
+			return &sym{st.UF("hash_Float64", smt.BV(64), f, seed)} // an exact integer is never -0 or NaN
+		}
 		isZero := st.FPCmp("fp.eq", f, st.Float(0))
-		canon := st.Ite(isZero, st.Const(smt.BV(64), 0), bitsv)
+		canon := st.Ite(isZero, st.Float(0), f)
 		h := st.UF("hash_Float64", smt.BV(64), canon, seed)
 		nan := st.Var(smt.BV(64), "nanhash")
 		return &sym{st.Ite(st.FPIsNaN(f), nan, h)}
